@@ -14,7 +14,9 @@ import (
 	"pgregory.net/rapid"
 	"verif/harness/core"
 	"verif/harness/model"
+	"verif/harness/ref"
 	"verif/harness/sut"
+	"verif/harness/value"
 )
 
 // C13 — alternative spellings are the same model.
@@ -29,11 +31,18 @@ type C13Case struct {
 	Invalid string       `json:"invalid"` // injected rule ("" = valid model)
 	A       model.Layout `json:"a"`
 	B       model.Layout `json:"b"`
+	// mode layout-wire: the model itself, value sequences for its protocols and the second layout;
+	// both layouts are generated and the generated Python code must behave identically on the wire
+	Pkg       *model.Package `json:"pkg,omitempty"`
+	Runs      []RTRun        `json:"runs,omitempty"`
+	Order     []int          `json:"order,omitempty"`
+	FileOf    []int          `json:"file_of,omitempty"`
+	FileNames []string       `json:"file_names,omitempty"`
 }
 
 const c13Outputs = "cpp:\n  sourcesOutputDir: ../out/cpp\n  generateHDF5: true\npython:\n  outputDir: ../out/py\nmatlab:\n  outputDir: ../out/m\njson:\n  outputDir: ../out/json\n"
 
-const c13Rule = "one generated model IR emitted twice: mode syntax = plain spelling vs a spelling with a random choice at every decision point (shorthand/expanded per type node, primitive alias names, quoting style, flow/block, !generic, [null, T], dimension syntaxes, hex enum values) plus noise comments and blank lines; mode layout = random permutation of definitions and random redistribution over 1-4 files; 1 in 5 cases carries an injected rule violation (both spellings must be rejected). oracle: same exit status; syntax => all generated files byte-identical (model.json compared without source positions); layout => schema literal of every protocol identical in C++, Python and MATLAB output, and the generated Python package imports for one ordering iff it does for the other. non-trivial = the two texts differ in at least 3 lines and the model has a union, an array or a generic; distinct = hash of both texts"
+const c13Rule = "one generated model IR emitted twice: mode syntax = plain spelling vs a spelling with a random choice at every decision point (shorthand/expanded per type node, primitive alias names, quoting style, flow/block, !generic, [null, T], dimension syntaxes, hex enum values) plus noise comments and blank lines; mode layout = random permutation of definitions and random redistribution over 1-4 files; 1 in 5 cases carries an injected rule violation (both spellings must be rejected). oracle: same exit status; syntax => all generated files byte-identical (model.json compared without source positions); layout => schema literal of every protocol identical in C++, Python and MATLAB output, and the generated Python package imports for one ordering iff it does for the other; one case in eight (mode layout-wire) draws the model from the run-time generator with value sequences, generates both layouts and requires the generated Python code of both to copy the same reference-encoded streams to byte-identical binary and NDJSON output that decodes to the original values. non-trivial = the two texts differ in at least 3 lines and the model has a union, an array or a generic; distinct = hash of both texts"
 
 func noise(t *rapid.T, files model.Files) model.Files {
 	out := model.Files{}
@@ -59,7 +68,112 @@ func noise(t *rapid.T, files model.Files) model.Files {
 	return out
 }
 
+// genC13Wire: a model from the run-time generator (every shape the generated Python code handles), value
+// sequences for its protocols, and a second ordering / file distribution of its definitions.
+func genC13Wire(t *rapid.T) C13Case {
+	cfg := rtGenConfig()
+	cfg.ArgRefPct = 25
+	applyRuntimeExclusions(&cfg)
+	rc := genRTCase(t, &cfg, 1, valueOpts(value.GenOpts{Budget: 30, FiniteFloats: true}, true), 5)
+	c := C13Case{Mode: "layout-wire", Pkg: rc.Pkg, Runs: rc.Runs}
+	n := len(rc.Pkg.Defs)
+	c.Order = rapid.Permutation(seq(n)).Draw(t, "order")
+	if rapid.IntRange(0, 2).Draw(t, "orderKind") == 0 {
+		for i := range c.Order {
+			c.Order[i] = n - 1 - i
+		}
+	}
+	nf := rapid.IntRange(1, 4).Draw(t, "files")
+	c.FileOf = make([]int, n)
+	for i := range c.FileOf {
+		c.FileOf[i] = rapid.IntRange(0, nf-1).Draw(t, "fileOf")
+	}
+	c.FileNames = []string{"a.yml", "sub/b.yaml", "z_last.yml", "sub/deep/c.yml"}[:nf]
+	c.A = model.EmitLayout(rc.Pkg, model.EmitOptions{})
+	c.B = model.EmitLayout(rc.Pkg, model.EmitOptions{Order: c.Order, FileOf: c.FileOf, FileNames: c.FileNames})
+	return c
+}
+
+// checkC13Wire: "reordering or re-splitting definitions yields identical wire behaviour": the Python code
+// generated from either layout copies reference-encoded streams to byte-identical binary and NDJSON output.
+func checkC13Wire(c C13Case) *Fail {
+	rec := core.Rec("C13")
+	ba, errA := sut.Generate(c.Pkg, sut.BuildOpts{Python: true, NDJson: true})
+	if ba != nil {
+		defer ba.Cleanup()
+	}
+	bb, errB := sut.Generate(c.Pkg, sut.BuildOpts{Python: true, NDJson: true, Emit: &model.EmitOptions{Order: c.Order, FileOf: c.FileOf, FileNames: c.FileNames}})
+	if bb != nil {
+		defer bb.Cleanup()
+	}
+	if (errA == nil) != (errB == nil) {
+		return failf("c13", "mode layout-wire: one layout of the model is accepted, the other is not:\n--- A: %v\n--- B: %v\n--- ordering B\n%s", errA, errB, core.Trunc(c.B["main"].Text(), 2500))
+	}
+	if errA != nil {
+		return failf("c13-gen", "generated model rejected (harness generator fault): %v", errA)
+	}
+	mk := func(b *sut.Built) ([]sut.Job, *Fail) {
+		var jobs []sut.Job
+		for i, run := range c.Runs {
+			proto := b.Pkg.Find(run.Proto)
+			in := filepath.Join(b.Root, fmt.Sprintf("in%d.bin", i))
+			os.WriteFile(in, ref.EncodeProtocol(b.Env, proto, b.Schemas[run.Proto], run.Steps), 0o644)
+			jobs = append(jobs, sut.Job{Op: "copy", Proto: run.Proto, InFmt: "binary", OutFmt: "binary", In: in, Out: filepath.Join(b.Root, fmt.Sprintf("out%d.bin", i))},
+				sut.Job{Op: "copy", Proto: run.Proto, InFmt: "binary", OutFmt: "ndjson", In: in, Out: filepath.Join(b.Root, fmt.Sprintf("out%d.ndjson", i))})
+		}
+		return jobs, nil
+	}
+	for _, run := range c.Runs {
+		if ba.Schemas[run.Proto] != bb.Schemas[run.Proto] {
+			return failf("c13", "reordering/re-splitting definitions changed the schema of protocol %s:\n--- A\n%s\n--- B\n%s", run.Proto, core.Trunc(ba.Schemas[run.Proto], 1200), core.Trunc(bb.Schemas[run.Proto], 1200))
+		}
+	}
+	ja, _ := mk(ba)
+	jb, _ := mk(bb)
+	ra, ea := ba.RunPy(ja)
+	rb, eb := bb.RunPy(jb)
+	if (ea == nil) != (eb == nil) {
+		return failf("c13", "the Python package generated from one ordering of the definitions runs, from the other it does not:\n--- A: %v\n--- B: %v\n--- ordering B of the model\n%s", ea, eb, core.Trunc(c.B["main"].Text(), 2500))
+	}
+	if ea != nil {
+		rec.Skip("layout-wire:python-does-not-build")
+		return nil
+	}
+	for k := range ja {
+		run := c.Runs[k/2]
+		ctx := func() string {
+			return fmt.Sprintf("%s -> %s\n%s\n--- ordering B of the model\n%s", ja[k].InFmt, ja[k].OutFmt, describeRun(ba, run), core.Trunc(c.B["main"].Text(), 2500))
+		}
+		if ra[k].OK != rb[k].OK {
+			return failf("c13", "wire behaviour depends on the order/distribution of the definitions: copy succeeds for one layout and fails for the other (A ok=%v %s, B ok=%v %s)\n%s", ra[k].OK, core.Trunc(ra[k].Error, 300), rb[k].OK, core.Trunc(rb[k].Error, 300), ctx())
+		}
+		if !ra[k].OK {
+			rec.Class("layout-wire:copy-fails-for-both")
+			continue
+		}
+		da, _ := os.ReadFile(ja[k].Out)
+		db, _ := os.ReadFile(jb[k].Out)
+		if string(da) != string(db) {
+			return failf("c13", "wire behaviour depends on the order/distribution of the definitions: the %s outputs differ at byte %d\n%s", ja[k].OutFmt, firstDiffByte(da, db), ctx())
+		}
+		if ja[k].OutFmt == "binary" {
+			dec, derr := ref.DecodeProtocol(ba.Env, ba.Pkg.Find(run.Proto), da)
+			if derr != nil {
+				return failf("c13", "binary output does not decode: %v\n%s", derr, ctx())
+			}
+			if d := value.StepsEqual(run.Steps, dec.Steps); d != "" {
+				return failf("c13", "values changed: %s\n%s", d, ctx())
+			}
+		}
+		rec.Class("layout-wire:identical-" + ja[k].OutFmt)
+	}
+	return nil
+}
+
 func genC13(t *rapid.T) C13Case {
+	if rapid.IntRange(0, 7).Draw(t, "wire") == 0 {
+		return genC13Wire(t)
+	}
 	cfg := model.DefaultGen()
 	cfg.ArgRefPct = 25 // named types as generic arguments: definition order matters most where types depend on each other
 	root := model.GenPackage(t, &cfg)
@@ -165,6 +279,14 @@ func generateTree(l model.Layout) (sut.Result, map[string]string) {
 }
 
 func checkC13(c C13Case) *Fail {
+	if c.Mode == "layout-wire" {
+		for i := range c.Runs {
+			for j := range c.Runs[i].Steps {
+				c.Runs[i].Steps[j].Fix()
+			}
+		}
+		return checkC13Wire(c)
+	}
 	ra, ta := generateTree(c.A)
 	rb, tb := generateTree(c.B)
 	if ra.TimedOut || rb.TimedOut {
@@ -280,7 +402,7 @@ func init() {
 func TestC13(t *testing.T) {
 	rec := core.Rec("C13")
 	rec.SetRule(c13Rule)
-	rec.Assume("explicit !union tags vs list syntax and documentation comments are not spelling-only differences and are never varied", "wire behaviour of re-ordered models is exercised by the run-time legs (C01/C03), here only the embedded schemas are compared")
+	rec.Assume("explicit !union tags vs list syntax and documentation comments are not spelling-only differences and are never varied", "wire behaviour of re-ordered models is compared through the generated Python code only (mode layout-wire); the C++ code of generated orderings is exercised by C01/C03")
 	replayKnown(t, "C13")
 	rapid.Check(t, func(rt *rapid.T) {
 		c := genC13(rt)
